@@ -269,8 +269,8 @@ def check_wfx(core, chk, b, cases, excuse, maxbuf=700, limit=10, found_so_far=Fa
         if "mstr" in toks or toks.get("buf", "-") == "-" or len(toks.get("buf", "")) // 2 > maxbuf:
             continue
         big = [int(x) for m_ in __import__("re").finditer(r"J[gl](\d+),(\d+)", toks["re"]) for x in m_.groups()]
-        if "A(" in toks["re"] and any(x > 200 for x in big):
-            continue      # an unsplit pattern with alternatives AND a chaining jump never runs as one piece in the engine (general VM, 65535-wide jump)
+        if any(x > 200 for x in big):
+            continue      # a pattern with a chaining jump never runs as ONE piece in the engine (its pieces are covered by the real-code run)
         lines.append("%s src=%s re=%s fl=%s buf=%s wfx=1" % (c.split(" ", 1)[0], toks["src"], toks["re"], toks.get("fl", "a"), toks["buf"]))
     omap, crashers = run_robust(core, [b["h_re"]], lines)
     mm, _ = run_robust(core, [core.driver_path(), "re"], lines, chunk_timeout=300, single_timeout=20)
